@@ -457,6 +457,7 @@ class HklCalculation:
             nu_constrained_to_0
             and mu_constrained_to_0
             and phi_not_constrained
+            and "eta" not in self.constraints._sample
             and angles_equivalent(pos.chi, 0.0)
         ):
             # constrained to vertical 4-circle like mode
@@ -483,6 +484,7 @@ class HklCalculation:
             delta_constrained_to_0
             and eta_constrained_to_0
             and phi_not_constrained
+            and "mu" not in self.constraints._sample
             and angles_equivalent(pos.chi, 90.0)
         ):
             # constrained to horizontal 4-circle like mode
